@@ -49,10 +49,10 @@ inductive YVal
 inductive Ty | int | str | bool | obj | arr | any
   deriving DecidableEq, Repr
 
-inductive ErrK | type | bcrypt | bindHost | verCur | verTarget | parse | encode
+inductive ErrK | type | bcrypt | bindHost | verCur | verTarget | parse | encode | other
   deriving DecidableEq, Repr
 
-inductive PanicK | nilMapWrite | other
+inductive PanicK | nilMapWrite | index | assertion | other
   deriving DecidableEq, Repr
 
 inductive Fault
